@@ -20,6 +20,10 @@ ALL_OPERATIONS = [
     "not_or", "not_xor", "not_b", "implied_by", "not_a", "implies", "not_and", "one",
 ]
 
+# Intermediate buffers of logic_net: one copy per thread, outside the stack (a wide layer or a large feature map does not fit
+# the default 8 MiB thread stack as an automatic array).
+BUFFER_STORAGE = "static __thread"
+
 BITS_TO_DTYPE = {8: "char", 16: "short", 32: "int", 64: "long long"}
 BITS_TO_ZERO_LITERAL = {8: "(char) 0", 16: "(short) 0", 32: "0", 64: "0LL"}
 BITS_TO_ONE_LITERAL = {8: "(char) 1", 16: "(short) 1", 32: "1", 64: "1LL"}
@@ -705,7 +709,7 @@ class CompiledLogicNet(torch.nn.Module):
         # Allocate intermediate buffers for non-linear layers
         for layer_type, layer_idx, output_shape, output_size in layer_info:
             if layer_type in ['conv', 'pool']:
-                code.append(f"\t{BITS_TO_DTYPE[self.num_bits]} layer_{layer_type}_{layer_idx}_out[{output_size}];")
+                code.append(f"\t{BUFFER_STORAGE} {BITS_TO_DTYPE[self.num_bits]} layer_{layer_type}_{layer_idx}_out[{output_size}];")
 
         # Allocate buffers for linear layers if needed
         linear_layer_count = len(self.linear_layers)
@@ -739,19 +743,19 @@ class CompiledLogicNet(torch.nn.Module):
                             layer_output_size = len(layer_a)  # This layer's output size
                             max_linear_input_size = max(max_linear_input_size, layer_output_size)
 
-                    code.append(f"\t{BITS_TO_DTYPE[self.num_bits]} linear_input[{max_linear_input_size}];")
+                    code.append(f"\t{BUFFER_STORAGE} {BITS_TO_DTYPE[self.num_bits]} linear_input[{max_linear_input_size}];")
 
             # For multi-layer linear networks, use ping-pong buffers
             if linear_layer_count > 1:
                 if has_non_linear_layers or has_flatten:
                     # Mixed model or flatten model: use one additional buffer for ping-ponging
                     max_linear_size = max(len(layer[0]) for layer in self.linear_layers)
-                    code.append(f"\t{BITS_TO_DTYPE[self.num_bits]} linear_buf_temp[{max_linear_size}];")
+                    code.append(f"\t{BUFFER_STORAGE} {BITS_TO_DTYPE[self.num_bits]} linear_buf_temp[{max_linear_size}];")
                 else:
                     # Linear-only model: use two ping-pong buffers
                     max_linear_size = max(len(layer[0]) for layer in self.linear_layers)
-                    code.append(f"\t{BITS_TO_DTYPE[self.num_bits]} linear_buf_a[{max_linear_size}];")
-                    code.append(f"\t{BITS_TO_DTYPE[self.num_bits]} linear_buf_b[{max_linear_size}];")
+                    code.append(f"\t{BUFFER_STORAGE} {BITS_TO_DTYPE[self.num_bits]} linear_buf_a[{max_linear_size}];")
+                    code.append(f"\t{BUFFER_STORAGE} {BITS_TO_DTYPE[self.num_bits]} linear_buf_b[{max_linear_size}];")
 
         # Check if we need a flatten buffer when no linear layers follow (for GroupSum only)
         if has_flatten and linear_layer_count == 0:
@@ -762,7 +766,7 @@ class CompiledLogicNet(torch.nn.Module):
                     flatten_size = output_size
                     break
             if flatten_size:
-                code.append(f"\t{BITS_TO_DTYPE[self.num_bits]} flattened_output[{flatten_size}];")
+                code.append(f"\t{BUFFER_STORAGE} {BITS_TO_DTYPE[self.num_bits]} flattened_output[{flatten_size}];")
 
         code.append("")
 
